@@ -5,7 +5,7 @@ from sysbase import SysBase, geometry
 class C02(SysBase):
     id = "C02"
     proof_target = "Props/C02.vo"
-    theorems = ["C02_missing_nonincreasing", "C02_pick_exists", "C02_assignment_requests", "C02_tracker_no_deadlock", "C02_extraction_identical"]
+    theorems = ["C02_missing_nonincreasing", "C02_pick_exists", "C02_assignment_requests", "C02_tracker_no_deadlock", "C02_extraction_identical", "C02_stats_exact", "C02_stats_model_repaired", "C02_stats_pinned_refuted"]
     coq_header = "From Rdest Require Import Base Corr.Sys.\nOpen Scope N_scope.\nDefinition codes := codes02.\n"
     rule = ("end-to-end runs in one process under the paused clock: the real Session, real PeerHandler tasks over in-memory "
             "pipes, 1-4 scripted remote peers following the protocol (each holding a subset of the pieces, every piece held by "
@@ -73,4 +73,103 @@ class C02(SysBase):
         return cases
 
 
+from driver import Case
+
+
+class C02Stats:
+    """the per-connection transfer statistics (Stats, timeout_sync_stats): no byte count a peer can deliver makes the
+    connection task panic, and the rates reported to the manager are the means of the last two intervals"""
+    id = "C02"
+    harness_sub = "stats"
+    harness_timeout = 300
+    harness_shards = 4
+    coq_timeout = 300
+    allowed_axioms = []
+    model_targets = ["Pack.vo", "Corr/Stats.vo"]
+    corr_name = "Stats::{update_*, shift, *_rate} / timeout_sync_stats vs Stats.v"
+    coq_header = "From Rdest Require Import Base Consts Stats Corr.Stats.\nOpen Scope N_scope.\nDefinition codes := codes.\n"
+    rule = ""
+    classes = {}
+    assumptions = []
+    release = False
+    ovf = "true"
+
+    def mk(self, ops, kind):
+        c = Case("stats " + " ".join(ops), kind, {"ops": len(ops)})
+        return c
+
+    def coq_case(self, c, out):
+        out = out.strip()
+        ops = []
+        for o in c.line.split()[1:]:
+            if o[0] == "d":
+                ops.append("SDown %s" % o[1:])
+            elif o[0] == "u":
+                ops.append("SUp %s" % o[1:])
+            elif o[0] == "x":
+                ops.append("SUnexpected")
+            else:
+                ops.append("STick")
+        if out == "PANIC":
+            impl = "None"
+        elif out == "NONE":
+            impl = "(Some [])"
+        else:
+            reps = []
+            for r in out.split():
+                d, u, x = r.split("/")
+                f = lambda v: "None" if v == "-" else "(Some %s)" % v
+                reps.append("(%s, %s, %s)" % (f(d), f(u), x))
+            impl = "(Some [%s])" % "; ".join(reps)
+        return "CStats %s [%s] %s" % (self.ovf, "; ".join(ops), impl)
+
+    def model_term(self, c):
+        return "(%s)" % c.term
+
+    def corpus(self):
+        G = 2 ** 31
+        return [self.mk(["d100", "u7", "t", "d50", "x", "t", "d10", "t", "t"], "stats-corpus"),
+                self.mk(["d%d" % G, "t", "d%d" % G, "t"], "stats-corpus"),                 # two intervals of 2 GiB
+                self.mk(["u%d" % (2 ** 32 - 1), "t", "u1", "t"], "stats-corpus"),
+                self.mk(["d%d" % (2 ** 32 + 5), "t", "d3", "t"], "stats-corpus")]
+
+    def gen(self, rng, tier):
+        k = {"quick": 300, "thorough": 6000, "search": 1500}.get(tier, 300)
+        big = [0, 1, 16384, 2 ** 31 - 1, 2 ** 31, 2 ** 32 - 1, 2 ** 32, 2 ** 32 + 1, 2 ** 33, 2 ** 40, 2 ** 62]
+        cases = []
+        for _ in range(k):
+            ops = []
+            heavy = rng.random() < 0.4
+            for _ in range(rng.choice([3, 6, 12, 20])):
+                r = rng.random()
+                amount = rng.choice(big) if heavy and rng.random() < 0.5 else rng.choice([0, 1, 9, 16384, rng.randrange(1, 10 ** 6)])
+                if r < 0.35:
+                    ops.append("d%d" % amount)
+                elif r < 0.55:
+                    ops.append("u%d" % amount)
+                elif r < 0.65:
+                    ops.append("x")
+                else:
+                    ops.append("t")
+            cases.append(self.mk(ops, "stats-heavy" if heavy else "stats"))
+        return cases
+
+
+class C02StatsRelease(C02Stats):
+    release = True
+    ovf = "false"
+
+    def corpus(self):
+        return [self._retag(c) for c in C02Stats.corpus(self)]
+
+    def gen(self, rng, tier):
+        return [self._retag(c) for c in C02Stats.gen(self, rng, "quick")]
+
+    def _retag(self, c):
+        c.kind = "release-" + c.kind
+        return c
+
+
 PROP = C02()
+PROP.parts = [PROP, C02Stats()]
+PROP.release_parts = [C02StatsRelease()]
